@@ -9,7 +9,8 @@ import (
 )
 
 // kvOps builds the KV alphabet of C01: per (bucket,key) two puts with different values, a put
-// that is live now and expired after one tick, a put exactly at the expiry boundary, a delete;
+// that is live now and expired after one tick, a put exactly at the expiry boundary, a put
+// whose timestamp lies ahead of the clock, a delete;
 // tick, reopen and four two-call transactions.
 func kvOps(buckets, keys []string, multi bool) []core.Op {
 	var ops []core.Op
@@ -21,6 +22,7 @@ func kvOps(buckets, keys []string, multi bool) []core.Op {
 				up(core.Call{F: "Put", B: b, K: k, V: "x"}),
 				up(core.Call{F: "PutTS", B: b, K: k, V: "t", TTL: 5, TS: -4}),
 				up(core.Call{F: "PutTS", B: b, K: k, V: "e", TTL: 5, TS: -5}),
+				up(core.Call{F: "PutTS", B: b, K: k, V: "f", TTL: 2, TS: 3}), // timestamp ahead of the clock: live until now+5
 				up(core.Call{F: "Delete", B: b, K: k}),
 			)
 		}
